@@ -458,6 +458,22 @@ def depth_markers(ctx: Context, rule: str) -> None:
             why = f"markers accepted: {sorted(k for k, _ in found)}; missing {missing or 'none'}; other {extra or 'none'}"
     ctx.check(rule, ok, "a variable is a depth coordinate when it carries any one of: positive up / down, axis Z, cartesian_axis Z, coordinate_type Z, standard_name depth "
               "(each alone is enough; files written by different tools carry different ones)", fi, appends[0] if appends else fi.node, construct=why)
+    # ... a marked variable that lies on a horizontal grid (bathymetry) does not join: where the grid kind is found, the loop goes on to the next variable
+    gk = [c for c in calls_in(fi, nested=True) if isinstance(c.func, ast.Attribute) and c.func.attr == 'get_grid_kind']
+    ok_g, how_g = False, 'no get_grid_kind(...) test'
+    for tr in [n for n in ast.walk(fi.node) if isinstance(n, ast.Try)]:
+        if gk and any(x is gk[0] for b in tr.body for x in ast.walk(b)):
+            caught = any(h.type is not None and 'ValueError' in norm_text(h.type) for h in tr.handlers)
+            handler_goes_on = all(not any(isinstance(x, (ast.Continue, ast.Break, ast.Return, ast.Raise)) for b in h.body for x in ast.walk(b)) for h in tr.handlers)
+            tail = tr.body[-1] if tr.body else None
+            found_skips = isinstance(tail, ast.Continue) or (tr.orelse and isinstance(tr.orelse[-1], ast.Continue))
+            # ... or the collection itself sits in the handler: `try: get_grid_kind(v)` / `except ValueError: collected.append(v)`
+            in_handler = {id(x) for h in tr.handlers if h.type is not None and 'ValueError' in norm_text(h.type) for b in h.body for x in ast.walk(b)}
+            collected_in_handler = bool(appends) and all(id(a) in in_handler for a in appends)
+            ok_g = caught and ((handler_goes_on and found_skips) or collected_in_handler)
+            how_g = (f"found -> {'continue' if found_skips else ('nothing is collected' if collected_in_handler else 'falls through to the collection')}; "
+                     f"ValueError -> {'collected' if (handler_goes_on or collected_in_handler) else 'skipped'}")
+    ctx.check(rule, ok_g, "a marked variable that lies on a horizontal grid is skipped, one that lies on none (get_grid_kind refuses it) is collected", fi, gk[0] if gk else fi.node, construct=how_g)
     # ... and a marked variable is left out for two reasons only: it is the bounds variable of another one, or it lies on a horizontal grid
     # (bathymetry).  Its size, rank, dtype or name decide nothing: a coordinate of two levels is a depth coordinate.
     for c in appends:
@@ -893,6 +909,14 @@ def passes_parameters_on(ctx: Context, rule: str, qualname: str, what: str) -> N
         ctx.check(rule, ok, f"{what}: the extra arguments `{'*' * star}{special.arg}` are passed on", fi, fi.node, construct=f"{fi.short}: {'*' * star}{special.arg}")
 
 
+def _parent_of(root: ast.AST, node: ast.AST):
+    for n in ast.walk(root):
+        for ch in ast.iter_child_nodes(n):
+            if ch is node:
+                return n
+    return None
+
+
 def none_default_discipline(ctx: Context, rule: str, qualnames: Iterable[str]) -> None:
     """A parameter whose default is None stands for "not given".  Where such a parameter is assigned inside the function, either a default is
     substituted - the new value does not read the parameter, and this happens exactly on the paths where the parameter is None - or what was given
@@ -908,6 +932,27 @@ def none_default_discipline(ctx: Context, rule: str, qualnames: Iterable[str]) -
         defaults.update({x.arg: d for x, d in zip(a.kwonlyargs, a.kw_defaults) if d is not None})
         none_params = {k for k, d in defaults.items() if isinstance(d, ast.Constant) and d.value is None}
         sites = 0
+        # what was given is kept: `self.topology = topology`, `self.latitude_name = latitude` never stand where the parameter is None ...
+        for st in walk_no_nested(fi.node):
+            if isinstance(st, ast.Assign) and len(st.targets) == 1 and isinstance(st.targets[0], (ast.Attribute, ast.Subscript)):
+                for name in sorted(none_params):
+                    if any(isinstance(x, ast.Name) and x.id == name and isinstance(x.ctx, ast.Load) for x in ast.walk(st.value)):
+                        fs = facts(ctx, fi, st, expand=False)
+                        is_none = (f"{name} is None", True) in fs or (f"{name} is not None", False) in fs
+                        ctx.check(rule, not is_none, f"`{name}` is stored (`{norm_text(st.targets[0])[:40]}`) where it was given, not where it is None", fi, st,
+                                  construct=f"{fi.short}: {norm_text(st.targets[0])[:40]} = {name} under {'`' + name + ' is None`' if is_none else 'a path where it may have been given'}")
+        # ... and every such parameter is used for something besides being tested (a parameter that is only compared with None is ignored)
+        for name in sorted(none_params):
+            used = False
+            for n in ast.walk(fi.node):
+                if isinstance(n, ast.Name) and n.id == name and isinstance(n.ctx, ast.Load):
+                    par = _parent_of(fi.node, n)
+                    if isinstance(par, ast.Compare) and par.left is n and len(par.ops) == 1 and isinstance(par.ops[0], (ast.Is, ast.IsNot)) \
+                            and isinstance(par.comparators[0], ast.Constant) and par.comparators[0].value is None:
+                        continue
+                    used = True
+                    break
+            ctx.check(rule, used, f"the optional parameter `{name}` is used where it is given (not only compared with None)", fi, fi.node, construct=f"{fi.short}: `{name}` {'is used' if used else 'is only tested'}")
         for st in walk_no_nested(fi.node):
             if not (isinstance(st, ast.Assign) and len(st.targets) == 1 and isinstance(st.targets[0], ast.Name) and st.targets[0].id in none_params):
                 continue
@@ -965,3 +1010,58 @@ def keyword_overrides_kept(ctx: Context, rule: str, qualnames: Iterable[str], ke
             ok = (f"'{k}' in {kw}", False) in fs or (f"'{k}' not in {kw}", True) in fs or (f"{kw}.get('{k}') is None", True) in fs
             ctx.check(rule, ok, f"the default for `{k}` is filled in only where the caller gave no `{k}`", fi, st,
                       construct=f"{fi.short}: {kw}['{k}'] = {norm_text(st.value)[:40]} under {sorted(t if pol else 'not (' + t + ')' for t, pol in fs if kw in t) or 'no test of the keywords'}")
+
+
+CF_COORDINATE_MARKERS = {
+    'latitude_name': ('CF_LATITUDE_UNITS', 'latitude', 'Y'),
+    'longitude_name': ('CF_LONGITUDE_UNITS', 'longitude', 'X'),
+}
+
+
+def cf_coordinate_markers(ctx: Context, rule: str) -> None:
+    """The latitude (longitude) of a CF grid is the first variable that is not another variable's bounds and carries ANY ONE of: units among the CF
+    spellings of degrees north (east), `standard_name: latitude` (`longitude`), `axis: Y` (`X`).  Where a name is yielded, exactly that disjunction
+    over the variable's own attributes is known, and nothing else about the variable but the bounds exclusion; the unit spellings are CF's."""
+    from .common import facts
+    import re as _re
+    p = ctx.p
+    units_want = {'CF_LATITUDE_UNITS': {'degrees_north', 'degree_north', 'degree_N', 'degrees_N', 'degreeN', 'degreesN'},
+                  'CF_LONGITUDE_UNITS': {'degrees_east', 'degree_east', 'degree_E', 'degrees_E', 'degreeE', 'degreesE'}}
+    mod = p.modules.get('emsarray.conventions.grid')
+    for const, want in sorted(units_want.items()):
+        v = mod.assigns.get(const) if mod is not None else None
+        got = None
+        if v is not None:
+            try:
+                got = set(ast.literal_eval(v))
+            except (ValueError, SyntaxError, TypeError):
+                got = None
+        ctx.check(rule, got == want, f"{const} lists the spellings CF allows for these units, all of them and no others", None, v, construct=f"{const} = {sorted(got) if got is not None else '?'}")
+    for member, (units, std, axis) in sorted(CF_COORDINATE_MARKERS.items()):
+        fi = ctx.func(f"emsarray.conventions.grid.CFGridTopology.{member}")
+        gens = [g for g in ast.walk(fi.node) if isinstance(g, ast.GeneratorExp) and len(g.generators) == 1]
+        ok, why = False, 'no search over the variables'
+        for g in gens:
+            cls: list = []
+            fs = facts(ctx, fi, g.elt, expand=True, clauses_out=cls)
+            tgt = g.generators[0].target
+            key = norm_text(tgt.elts[0]) if isinstance(tgt, ast.Tuple) else norm_text(tgt)
+            var = norm_text(tgt.elts[1]) if isinstance(tgt, ast.Tuple) and len(tgt.elts) == 2 else f"self.dataset[{key}]"
+            attrs = rf"(?:{_re.escape(var)}|self\.dataset\[{_re.escape(key)}\]|self\.dataset\.variables\[{_re.escape(key)}\])\.attrs"
+            want = {rf"{attrs}\.get\('units'\) in {units}", rf"{attrs}\.get\('standard_name'\) == '{std}'", rf"{attrs}\.get\('axis'\) == '{axis}'"}
+            marker_clauses = []
+            for cl in cls:
+                texts = [t for t, pol in cl if pol]
+                if len(texts) == len(cl) and all(any(_re.fullmatch(w, t) for w in want) for t in texts):
+                    marker_clauses.append(set(texts))
+            full = any(len(c) == 3 for c in marker_clauses)
+            other_clauses = [[t for t, _ in cl] for cl in cls if any(('attrs' in t or var in t) for t, _ in cl)
+                             and not (len([t for t, pol in cl if pol]) == len(cl) and all(any(_re.fullmatch(w, t) for w in want) for t, _ in cl))]
+            other_facts = sorted(f"{t} is {pol}" for t, pol in fs if ('attrs' in t or _re.search(rf"\b{_re.escape(var)}\b", t)) )
+            bounds_ok = any((not pol) and t.startswith(f"{key} in ") and 'bounds' in t for t, pol in fs)
+            ok = full and not other_clauses and not other_facts and bounds_ok
+            why = f"markers {sorted(sorted(c) for c in marker_clauses)[:1]}; bounds excluded: {bounds_ok}; further conditions: {(other_facts + [' or '.join(c) for c in other_clauses])[:2] or 'none'}"
+            if ok:
+                break
+        ctx.check(rule, ok, f"{member}: a variable is the coordinate when it is no other variable's bounds and carries any one of units in {units}, standard_name {std!r}, axis {axis!r} "
+                  "(each alone is enough) - and under no further condition", fi, gens[0] if gens else fi.node, construct=why[:300])
